@@ -80,6 +80,11 @@ Proof. exact vt_unknown_ref_rejected. Qed.
 Theorem c05_known_value_types_accepted : forall x : xvalty, x <> X_OtherRef -> exists v : valty, gen_vt_parse x = Some v.
 Proof. exact vt_parse_total_on_known. Qed.
 
+(* the payload loop of the SOURCE (regenerated): every section is handed to its validator method before it is consumed; unsupported kinds bail *)
+From WV Require Gen.ParseSkeleton Proofs.ParsePinned.
+Theorem c05_parse_source_skeleton : WV.Gen.ParseSkeleton.parse_skeleton = WV.Proofs.ParsePinned.expected_parse_skeleton.
+Proof. exact WV.Proofs.ParsePinned.parse_skeleton_pinned. Qed.
+
 Print Assumptions c05_every_payload_validated_before_use.
 Print Assumptions c05_bodies_validated_before_use.
 Print Assumptions c05_features_reach_reader_and_validator.
@@ -94,3 +99,4 @@ Print Assumptions c05_parse_never_panics_on_valid_streams.
 Print Assumptions c05_parse_never_errs_on_valid_streams.
 Print Assumptions c05_unknown_reference_types_rejected.
 Print Assumptions c05_known_value_types_accepted.
+Print Assumptions c05_parse_source_skeleton.
